@@ -198,6 +198,9 @@ class Codec(object):
 
     def dumps(self, doc):
         f = self.conf.fmt
+        if f == 'jsonrpc':
+            # JsonRpc('spyne'): the JSON document inside a versioned envelope
+            return json.dumps({'ver': 1, 'body': doc}, ensure_ascii=False).encode('utf8')
         if f == 'json':
             return json.dumps(doc, ensure_ascii=False).encode('utf8')
         if f == 'yaml':
@@ -208,6 +211,11 @@ class Codec(object):
 
     def loads(self, data):
         f = self.conf.fmt
+        if f == 'jsonrpc':
+            d = json.loads(data.decode('utf8'), parse_float=_keep_float)
+            if not isinstance(d, dict) or d.get('ver') != 1 or not ('body' in d or 'fault' in d):
+                raise ValueError('not a JsonRpc envelope: %r' % (d if not isinstance(d, dict) else sorted(d)))
+            return d['fault'] if 'fault' in d else d['body']
         if f == 'json':
             return json.loads(data.decode('utf8'), parse_float=_keep_float)
         if f == 'yaml':
@@ -276,6 +284,9 @@ class Codec(object):
                 return self._unwrap_rpc(md, doc)
         if not rets:
             return []
+        if c.fmt == 'jsonrpc' and md['style'] not in ('bare', 'out_bare', 'empty_out_bare'):
+            # the body of the envelope is the response message object itself
+            return self._multi(md, doc)
         if md['style'] in ('bare', 'out_bare', 'empty_out_bare'):
             if not c.ignore_wrappers and 'ref' in rets[0] and isinstance(doc, dict) and len(doc) == 1:
                 # bare object under its message name
